@@ -10,6 +10,7 @@ import (
 	"strings"
 	"sync"
 	"sync/atomic"
+	"time"
 
 	lz4 "github.com/pierrec/lz4/v4"
 	"github.com/pierrec/lz4/v4/verifsched"
@@ -619,10 +620,10 @@ func c08RacePass(c *ev.Ctx) {
 		}
 		for r := 0; r < runs; r++ {
 			o := &Obs{}
-			func() {
-				defer func() { recover() }()
-				sc.Body(o)
-			}()
+			if !raceBody(c, "scenario "+sc.Name, func() { sc.Body(o) }) {
+				c.Add("aux_race_runs", n)
+				return
+			}
 			n++
 		}
 	}
@@ -702,14 +703,40 @@ func c08RacePass(c *ev.Ctx) {
 			continue
 		}
 		for r := 0; r < runs; r++ {
-			func() {
-				defer func() { recover() }()
-				b()
-			}()
+			if !raceBody(c, fmt.Sprintf("free-form body %d", i), b) {
+				c.Add("aux_race_runs", n)
+				return
+			}
 			n++
 		}
 	}
 	c.Add("aux_race_runs", n)
+}
+
+// raceBody runs one free-running body of the auxiliary race pass. The bodies take milliseconds; one
+// that has not returned after 30 s + 120 s is blocked (which schedules block is decided by the
+// exploration under the controlled scheduler; here it only must not keep the check from ending):
+// it is reported and the pass stops in this worker, whose other goroutines are left behind.
+func raceBody(c *ev.Ctx, name string, fn func()) bool {
+	done := make(chan struct{})
+	go func() {
+		defer close(done)
+		defer func() { recover() }()
+		fn()
+	}()
+	select {
+	case <-done:
+		return true
+	case <-time.After(30 * time.Second):
+	}
+	select {
+	case <-done:
+		return true
+	case <-time.After(120 * time.Second):
+	}
+	c.Report(&ev.Finding{Sig: "a call does not return in a free-running concurrent execution (auxiliary race pass): " + name + " [schedule-dependent: observed in a free-running concurrent execution]",
+		What: "no return within 150 s", Case: map[string]string{"body": name}, Count: 1})
+	return false
 }
 
 func countSinkCalls(p *writerPlan) int {
